@@ -151,7 +151,14 @@ let text ms = M.p_ctx M.fmtF M.fmtD M.fmtLD ms
 let rec int_of_z = function M.Z0 -> 0 | M.Zpos p -> int_of_pos p | M.Zneg p -> - (int_of_pos p)
 let counters zs = String.concat "" (List.map (fun z -> string_of_int (int_of_z z) ^ ",") zs)
 
+(* "rawscan HEX": the model scanner on hand-written text: RS = ok / ERR:why, T2 = text of what was scanned *)
+let run_rawscan hex =
+  match M.scan_ctx M.parseF M.parseD M.parseLD (bytes_of_hex hex) with
+  | M.Err why -> print_endline ("RS=ERR:" ^ ocaml_string why)
+  | M.Ok ms -> print_endline ("RS=ok|T2=" ^ hex_of_bytes (text ms))
+
 let run_case line =
+  if String.length line > 8 && String.sub line 0 8 = "rawscan " then run_rawscan (String.sub line 8 (String.length line - 8)) else
   let ms = parse_case line in
   let b = Buffer.create 4096 in
   let t0 = text ms in
